@@ -804,7 +804,7 @@ fn c07_unbond_step(po: &HubObs, a: &Action, sender: &str, tok: &str, amt: u128, 
         cx.count("c07_unbond_via_send_from");
     }
     let peg = po.params.peg_recovery_fee;
-    let fee_on = tok == BSEI && po.state.bsei_exchange_rate < po.params.er_threshold;
+    let fee_on = tok == BSEI && po.bsei_rate_derived() < po.params.er_threshold;
     let lo = if fee_on { amt - mul_dec(amt, peg) } else { amt };
     if credited > amt || credited < lo {
         cx.viol("C07.credit_bounds", "claim credited outside [amount - peg fee, amount]", format!("{}: amount {} credited {} allowed [{},{}]", a.label, amt, credited, lo, amt));
@@ -920,7 +920,7 @@ fn c08_step(pre: &Chain, po: &HubObs, a: &Action, out: &Outcome, qo: &HubObs, cx
         return;
     }
     let fx = out.fx();
-    let passed = now - po.state.last_unbonded_time;
+    let passed = now - po.last_undelegation();
     let closed = qo.batch.id != po.batch.id;
     let und = fx_sum_undelegate(fx);
     let is_unbond = a.hub_hook().map(|h| h.0 == "unbond").unwrap_or(false);
